@@ -1,5 +1,5 @@
 #!/usr/bin/env bash
 # libFuzzer campaign for C11 (target file_c11: engine E6 over E3 -- file-worker histories decoded from bytes by
 # fsim::fuzz, run with the real emit_file worker over the model filesystem, judged by C11's oracle in the target).
-# quick 20 k runs, thorough 2.4 M runs over 12 jobs.
-exec "$(dirname "$0")/../../tools/fuzz_campaign.sh" C11 file_c11 "$1" "$2" 20000 2400000 192 file_history
+# quick 20 k runs, thorough 1.2 M runs over 12 jobs.
+exec "$(dirname "$0")/../../tools/fuzz_campaign.sh" C11 file_c11 "$1" "$2" 20000 1200000 192 file_history
